@@ -104,7 +104,13 @@ type GRPCClient struct {
 // ClientProtocol impl.
 func (c *GRPCClient) Close() error {
 	c.broker.Close()
-	c.controller.Shutdown(c.doneCtx, &plugin.Empty{})
+
+	// The shutdown request must not wait forever for a plugin that has stopped
+	// responding (e.g. a frozen process): Client.Kill force-kills the plugin
+	// after its own grace period, but only once Close has returned.
+	ctx, cancel := context.WithTimeout(c.doneCtx, 2*time.Second)
+	defer cancel()
+	c.controller.Shutdown(ctx, &plugin.Empty{})
 	return c.Conn.Close()
 }
 
